@@ -33,6 +33,8 @@ type propSpec struct {
 }
 
 var props = map[string]propSpec{
+	"C01": {"C01", []string{"genmap"}, "", nil},
+	"C02": {"C02", []string{"genmap"}, "", nil},
 	"C03": {"C03", []string{"empty"}, "", nil},
 	"C04": {"C04", []string{"empty"}, "", nil},
 	"C05": {"C05", []string{"reset"}, "", nil},
